@@ -28,6 +28,10 @@ type TokenReport struct {
 // heredoc with an empty body loses its indentation and first byte".
 const KnownEmptyHeredoc73 = "empty-heredoc-73"
 
+// KnownDocCommentNoSpace is the finding "a comment that starts with /** not
+// followed by whitespace (/***/, /**x*/) is classified as doc-comment".
+const KnownDocCommentNoSpace = "doc-comment-no-space"
+
 func isWS(b []byte) bool {
 	if len(b) == 0 {
 		return false
@@ -58,6 +62,10 @@ func ffClassOK(t *token.Token) string {
 	case token.T_DOC_COMMENT:
 		if !bytes.HasPrefix(v, []byte("/**")) || !bytes.HasSuffix(v, []byte("*/")) || len(v) < 5 {
 			return "classified as doc-comment but is not /** ... */"
+		}
+		if !isWS(v[3:4]) {
+			// PHP: only "/**" followed by whitespace starts a doc comment
+			return KnownDocCommentNoSpace
 		}
 	case token.T_OPEN_TAG:
 		if !(bytes.Equal(v, []byte("<?")) || bytes.EqualFold(v, []byte("<?php"))) {
@@ -177,7 +185,9 @@ func CheckTokens(src []byte, root ast.Vertex, errFree bool, flexibleHeredoc bool
 				return &r
 			}
 			if ff {
-				if m := ffClassOK(t); m != "" {
+				if m := ffClassOK(t); m == KnownDocCommentNoSpace {
+					rep.Known = append(rep.Known, KnownDocCommentNoSpace)
+				} else if m != "" {
 					r := fail("ff-class", "free-floating token %s: %s", astx.TokString(t), m)
 					return &r
 				}
